@@ -52,6 +52,12 @@ def current_command(cmd):
     return deco
 
 
+def _refused(reply):
+    # A sender, a recipient or a message is accepted by a 2xx reply only:
+    # besides 4xx and 5xx a (nonsensical) 1xx or 3xx must not count as one.
+    return not (reply.code or '').startswith('2')
+
+
 class _AllRecipientsRejected(Exception):
     # Every recipient was rejected, but not all in the same way: the failure
     # has to be reported per recipient.
@@ -194,16 +200,17 @@ class SmtpRelayClient(RelayPoolClient):
             return self.client.data()
 
     def _check_replies(self, mailfrom, rcpttos, data):
-        if mailfrom.is_error():
+        if _refused(mailfrom):
             raise SmtpRelayError.factory(mailfrom)
         for rcptto in rcpttos:
-            if not rcptto.is_error():
+            if not _refused(rcptto):
                 break
         else:
             if len(set(rcptto.code[0] for rcptto in rcpttos)) > 1:
                 raise _AllRecipientsRejected(rcpttos)
             raise SmtpRelayError.factory(rcpttos[0])
-        if data.is_error():
+        if data.code != '354':
+            # Only after a 354 does the server expect the message content.
             raise SmtpRelayError.factory(data)
 
     @current_command(b'[SEND_DATA]')
@@ -220,7 +227,7 @@ class SmtpRelayClient(RelayPoolClient):
             send_data = self.client.send_data(
                 header_data, message_data)
             self.client._flush_pipeline()
-        if isinstance(send_data, Reply) and send_data.is_error():
+        if isinstance(send_data, Reply) and _refused(send_data):
             raise SmtpRelayError.factory(send_data)
         return send_data
 
@@ -243,12 +250,12 @@ class SmtpRelayClient(RelayPoolClient):
             data = self._data()
             self._check_replies(mailfrom, rcpttos, data)
         except (SmtpRelayError, _AllRecipientsRejected):
-            if data and not data.is_error():
+            if data and data.code == '354':
                 self._send_empty_data()
             raise
         for i, rcpt_reply in enumerate(rcpttos):
             rcpt = envelope.recipients[i]
-            if rcpt_reply.is_error():
+            if _refused(rcpt_reply):
                 rcpt_results[rcpt] = SmtpRelayError.factory(rcpt_reply)
 
     def _set_rejected(self, result, envelope, rcpttos):
